@@ -20,7 +20,7 @@ import threading
 from vlib.common import HARNESS, REPO
 
 WRAPPED = ("pthread_create pthread_mutex_lock pthread_mutex_unlock pthread_cond_wait pthread_cond_signal "
-           "pthread_cond_broadcast pthread_kill pthread_cancel pthread_sigmask sigwait raise time sleep poll read "
+           "pthread_cond_broadcast pthread_kill pthread_cancel pthread_join pthread_sigmask sigwait raise time sleep poll read "
            "close fcntl fputs fflush exit").split()
 REPO_SRCS = ["src/pdsh/cbuf.c", "src/pdsh/rcmd.c", "src/common/err.c", "src/common/list.c", "src/common/hostlist.c",
              "src/common/xstring.c", "src/common/xmalloc.c", "src/common/fd.c", "src/common/xpoll.c"]
